@@ -709,6 +709,7 @@ fn vk_input_case(ctx: &mut Ctx, class: &str, vk: &VerifyingKey<F, Scheme>) {
 fn vk_mutations(ctx: &mut Ctx, m: &Member, p: &Proven, other_cs: &[(&str, &FamParams)], all: bool) {
     let vk = m.pk.get_vk();
     vk_input_case(ctx, "honest", vk);
+    mini::csdebug_case(ctx, "family", vk);
     let bytes = vk.to_bytes(SerdeFormat::RawBytes);
     let nf = vk.fixed_commitments().len();
     let np = vk.permutation().commitments().len();
